@@ -1,3 +1,19 @@
-data B { T, F }
-def neg(b: B): B { b.case { T => F, F => T } }
-def main(x: i64): i64 { let r: i64 = neg(if x == 0 { T } else { F }).case { T => 1, F => label k { if x < 5 { goto k (7) } else { x * 3 } } }; r }
+data Bit { T, F }
+data List[A] { Cons(head: A, tail: List[A]), Nil }
+data Opt[A] { Some(it: A), None }
+codata Fun[A, B] { apply(arg: A): B }
+codata Stream[A] { tail: Stream[A], head: A }
+def neg(b: Bit): Bit { b.case { T => F, F => T } }
+def idl(l: List[i64]): List[i64] { l }
+def ido(o: Opt[i64], k: i64): Opt[i64] { if k == 0 { o } else { ido(o, k - 1) } }
+def idf(f: Fun[i64, i64]): Fun[i64, i64] { f }
+def ids(s: Stream[i64]): Stream[i64] { s }
+def nat(n: i64): Stream[i64] { new { tail => nat(n + 1), head => n } }
+def main(x: i64): i64 {
+  let r: i64 = neg(if x == 0 { T } else { F }).case { T => 1, F => label k { if x < 5 { goto k (7) } else { x * 3 } } };
+  let a: i64 = idl(Cons(x, Nil)).case[i64] { Cons(h, t) => h, Nil => 0 };
+  let b: i64 = ido(Some(r), 2).case[i64] { Some(v) => v, None => 0 };
+  let c: i64 = idf(new { apply(y) => y + 1 }).apply[i64, i64](a);
+  let d: i64 = ids(nat(x)).tail[i64].head[i64];
+  ((r + a) + (b + c)) + d
+}
